@@ -38,7 +38,7 @@ ASSUMPTIONS = [
 def budget(tier):
     if tier == "quick":
         return dict(examples=8, shards=16, shrink_calls=25)
-    return dict(examples=120, shards=16, shrink_calls=300)
+    return dict(examples=80, shards=16, shrink_calls=300)
 
 
 @st.composite
